@@ -674,6 +674,22 @@ fn temp_prefix_case(case_seed: u64, r: &mut Report, args: &Args) {
             Err(e) => r.violation(format!("crash:{}:unreadable-after-interrupted-save", fmt), format!("temp prefix {}: {}", cut, e), json!({"part": "temp-prefix", "case_seed": case_seed})),
         }
     }
+    // a leftover temp file from an earlier interrupted save (longer than the next snapshot) must not
+    // leak into the next completed save
+    std::fs::write(&dest, &bytes_a).unwrap();
+    let mut stale = bytes_a.clone();
+    stale.extend_from_slice(&bytes_b);
+    stale.extend_from_slice(&rng.bytes(64));
+    std::fs::write(&tmp, &stale).unwrap();
+    r.count("saves_over_stale_temp_file", 1);
+    match save_by_format(&b, fmt, &dest).and_then(|_| load_by_format(fmt, &dest)) {
+        Ok(s) => {
+            if obs_hash(&observe(&s, &[])) != hb {
+                r.violation(format!("crash:{}:save-over-leftover-temp-loads-differently", fmt), "a completed save performed while a longer stale temp file existed does not load as the saved store".to_string(), json!({"part": "temp-prefix", "case_seed": case_seed}));
+            }
+        }
+        Err(e) => r.violation(format!("crash:{}:save-over-leftover-temp-unreadable", fmt), format!("a completed save performed while a longer stale temp file existed cannot be loaded: {}", e), json!({"part": "temp-prefix", "case_seed": case_seed})),
+    }
     // after the rename
     std::fs::write(&dest, &bytes_b).unwrap();
     let _ = std::fs::remove_file(&tmp);
@@ -686,6 +702,113 @@ fn temp_prefix_case(case_seed: u64, r: &mut Report, args: &Args) {
         Err(e) => r.violation(format!("crash:{}:unreadable-after-rename", fmt), e, json!({"part": "temp-prefix", "case_seed": case_seed})),
     }
     r.eval(hash_combine(case_seed, 7), ha != hb);
+}
+
+/// Take an image, change the live store, take another image: the second image must show the store
+/// as it is now, whatever kind of change happened in between (raw put, relational rows written
+/// through the relational slab, graph data, embeddings, clear()).
+fn resnapshot_case(case_seed: u64, r: &mut Report, args: &Args) {
+    let mut rng = Rng::new(case_seed);
+    let n = 5 + rng.below(40);
+    let c = build_content(&mut rng, n, true);
+    let replay = json!({"part": "resnapshot", "case_seed": case_seed});
+    let scratch = args.scratch_dir("c07r");
+    let via_file = rng.chance(1, 3);
+    let take = |store: &TensorStore, name: &str| -> Result<Vec<u8>, String> {
+        if via_file {
+            let p = scratch.join(name);
+            store.save_snapshot(&p).map_err(|e| e.to_string())?;
+            std::fs::read(&p).map_err(|e| e.to_string())
+        } else {
+            store.snapshot_bytes().map_err(|e| e.to_string())
+        }
+    };
+    let restore = |bytes: &[u8], name: &str| -> Result<TensorStore, String> {
+        if via_file {
+            let p = scratch.join(name);
+            std::fs::write(&p, bytes).map_err(|e| e.to_string())?;
+            TensorStore::load_snapshot(&p).map_err(|e| e.to_string())
+        } else {
+            let s = TensorStore::new();
+            s.restore_from_bytes(bytes).map_err(|e| e.to_string())?;
+            Ok(s)
+        }
+    };
+    if take(&c.store, "first.snap").is_err() {
+        r.inconclusive("first image failed");
+        return;
+    }
+    let steps = 1 + rng.below(3);
+    let mut trace = Vec::new();
+    for step in 0..steps {
+        let kind = rng.below(6);
+        match kind {
+            0 => {
+                let rel = RelationalEngine::with_store(c.store.clone());
+                let tables = rel.list_tables();
+                if let Some(t) = tables.first() {
+                    let mut row: HashMap<String, RVal> = HashMap::new();
+                    row.insert("a".into(), RVal::Int(900_000 + step as i64));
+                    let _ = rel.insert(t, row);
+                    trace.push("relational insert");
+                } else {
+                    trace.push("relational insert (no table)");
+                }
+            }
+            1 => {
+                let rel = RelationalEngine::with_store(c.store.clone());
+                let name = format!("late{}", step);
+                let _ = rel.create_table(&name, Schema::new(vec![Column::new("a", ColumnType::Int)]));
+                let mut row: HashMap<String, RVal> = HashMap::new();
+                row.insert("a".into(), RVal::Int(7));
+                let _ = rel.insert(&name, row);
+                trace.push("create table + insert");
+            }
+            2 => {
+                c.store.clear();
+                trace.push("clear");
+            }
+            3 => {
+                let g = GraphEngine::with_store(c.store.clone());
+                let _ = g.create_node("Late", HashMap::new());
+                trace.push("create node");
+            }
+            4 => {
+                let mut d = TensorData::new();
+                d.set("late", TensorValue::Scalar(ScalarValue::Int(step as i64)));
+                let _ = c.store.put(format!("late:{}", step), d);
+                trace.push("raw put");
+            }
+            _ => {
+                let rel = RelationalEngine::with_store(c.store.clone());
+                if let Some(t) = rel.list_tables().first() {
+                    let _ = rel.delete_rows(t, Condition::True);
+                    trace.push("relational delete all rows");
+                }
+            }
+        }
+        let live = observe(&c.store, &[]);
+        let got = take(&c.store, "again.snap").and_then(|b| restore(&b, "again2.snap")).map(|s| observe(&s, &[]));
+        r.count("resnapshots_compared", 1);
+        match got {
+            Err(e) => {
+                r.violation("resnapshot:second-image-unreadable", format!("{} after {:?}", e, trace), replay.clone());
+                return;
+            }
+            Ok(o) => {
+                if obs_hash(&o) != obs_hash(&live) {
+                    let what = trace.last().copied().unwrap_or("?").replace(' ', "-");
+                    r.violation(
+                        format!("resnapshot:image-taken-after-{}-does-not-show-it", what),
+                        format!("image #{} ({}) restored: tables {:?} vs live {:?}; keys {} vs {}; steps {:?}", step + 2, if via_file { "file" } else { "bytes" }, o.tables.iter().map(|(k, v)| (k, v.1.len())).collect::<Vec<_>>(), live.tables.iter().map(|(k, v)| (k, v.1.len())).collect::<Vec<_>>(), o.view.len(), live.view.len(), trace),
+                        replay.clone(),
+                    );
+                    return;
+                }
+            }
+        }
+    }
+    r.eval(hash_combine(case_seed, 0x5A), true);
 }
 
 fn main() {
@@ -707,6 +830,7 @@ fn main() {
         let s = rp["case_seed"].as_u64().unwrap_or(1);
         match rp["part"].as_str().unwrap_or("roundtrip") {
             "temp-prefix" => temp_prefix_case(s, &mut total, &args),
+            "resnapshot" => resnapshot_case(s, &mut total, &args),
             "roundtrip-big" => roundtrip_case(s, &mut total, &args, true),
             _ => roundtrip_case(s, &mut total, &args, false),
         }
@@ -720,16 +844,19 @@ fn main() {
         let a2 = args.clone();
         let rep = par_cases(args.threads, args.seed ^ 0x7E, args.by_tier(60, 3_000), args.budget(20, 300), move |_i, s, r| temp_prefix_case(s, r, &a2));
         total.merge(rep);
+        let a2 = args.clone();
+        let rep = par_cases(args.threads, args.seed ^ 0x5E, args.by_tier(300, 10_000), args.budget(15, 240), move |_i, s, r| resnapshot_case(s, r, &a2));
+        total.merge(rep);
     }
     let meta = Meta {
         property: "C07",
-        rule: "roundtrip case = store of 0..200 (a few of 3 000 / 30 000) raw entries over all value kinds and key classes + relational tables (Int/Float/String/Bool/Bytes, nullable, optional index) + graph nodes/edges with properties + vector-engine embeddings (dims 2-255 and 384) + blob-log chunks, saved and reloaded through 8 paths (file, v3 uncompressed, v3 default/zstd, bytes->fresh store, bytes->dirty store, SlabRouter bytes, quantising format default and balanced) and observed through store scan/get AND RelationalEngine/GraphEngine/VectorEngine reads; temp-prefix case = destination A + every (small) or sampled prefix of B's bytes as the sibling temp file, then the renamed file. Distinct = hash of key set x seed; non-trivial = at least 3 keys (round trip) / A and B differ (crash).",
+        rule: "roundtrip case = store of 0..200 (a few of 3 000 / 30 000) raw entries over all value kinds and key classes + relational tables (Int/Float/String/Bool/Bytes, nullable, optional index) + graph nodes/edges with properties + vector-engine embeddings (dims 2-255 and 384) + blob-log chunks, saved and reloaded through 8 paths (file, v3 uncompressed, v3 default/zstd, bytes->fresh store, bytes->dirty store, SlabRouter bytes, quantising format default and balanced) and observed through store scan/get AND RelationalEngine/GraphEngine/VectorEngine reads; temp-prefix case = destination A + every (small) or sampled prefix of B's bytes as the sibling temp file, then the renamed file, plus a real save over a longer leftover temp file; resnapshot case = image, 1-3 changes of random kind (relational rows through the slab, new table, clear(), graph node, raw put, delete rows), image again after each change, restored and compared with the live store. Distinct = hash of key set x seed; non-trivial = at least 3 keys (round trip) / A and B differ (crash).",
         assumptions: vec![
             "384-dim slab vectors with >= 55% zeros are expected bit-exact (the slab snapshot's sparse path); dense low-TT-rank 384-dim vectors are held to the documented <1% relative L2 error; dense random 384-dim vectors are not judged (no bound is documented when the rank cap binds)".into(),
             "quantising format: vector payloads are not judged beyond presence; everything else must be exact".into(),
             "cache keys and, for restore_from_bytes, blob-log chunks are outside the comparison".into(),
         ],
-        floors: if args.replay.is_some() { vec![] } else { vec![("evaluations", 60), ("keys_compared", 2_000), ("table_rows_compared", 500), ("graph_entities_compared", 500), ("exact_slab_vectors_compared", 100), ("temp_prefix_images", 500), ("max:store_entries", 2_000)] },
+        floors: if args.replay.is_some() { vec![] } else { vec![("evaluations", 60), ("keys_compared", 2_000), ("table_rows_compared", 500), ("graph_entities_compared", 500), ("exact_slab_vectors_compared", 100), ("temp_prefix_images", 500), ("max:store_entries", 2_000), ("resnapshots_compared", 200), ("saves_over_stale_temp_file", 20)] },
         exhaustive: false,
     };
     write_result(&args, &meta, &total, started);
